@@ -3,10 +3,10 @@ CONSTANTS
   IdBits <- Ids6
   LocalBits <- Local6
   K = 3
-  Peers <- Peers8
+  Peers <- Peers8k3
   Targets <- Targets10
   Counts <- Counts4
-  MaxOps = 5
+  MaxOps = 4
 VIEW view
 INVARIANTS Valid NearestOK
 CONSTRAINT InitOut
